@@ -24,6 +24,7 @@ inductive Reach : S → Prop
   | nops {s : S} (k : Nat) : Reach s → Reach { s with nops := k }
   | newItem {s : S} : Reach s → Reach { s with trace := [], fired := 0 }
   | noYields {s : S} : Reach s → Reach { s with budget := fun _ => 0 }
+  | setBody {s : S} (b : List BCall) (r : Ret) : Reach s → Reach { s with bscript := b, bret := r }
   | observe {s : S} (o : Librfn.Spec.IsrSpec.Obs) : (o = .threadBegin ∨ o = .threadEnd) → Reach s → Reach (emit o s)
 
 /-! ## the control invariant -/
@@ -418,6 +419,13 @@ theorem frame_returned {s0 s : S} (h : Same s0 s) (r : Ret) : SchedFrame s0 (ret
   · exact frame_finishPass (by exact ⟨h.aq, h.eq, h.ipc, h.kind⟩) _
   · exact ⟨⟨h.aq, h.eq, h.ipc, h.kind⟩, trivial⟩
 
+theorem frame_bodyStep {s0 s : S} (h : Same s0 s) : SchedFrame s0 (bodyStep s) := by
+  unfold bodyStep
+  split
+  · exact frame_returned h _
+  · exact ⟨⟨h.aq, h.eq, h.ipc, h.kind⟩, trivial⟩
+  · exact ⟨⟨h.aq, h.eq, h.ipc, h.kind⟩, trivial⟩
+
 theorem frame_bodyOf {s0 s : S} (h : Same s0 s) (c : Fid) : SchedFrame s0 (bodyOf s c) := by
   unfold bodyOf
   split
@@ -429,6 +437,7 @@ theorem frame_bodyOf {s0 s : S} (h : Same s0 s) (c : Fid) : SchedFrame s0 (bodyO
     · exact frame_returned (by exact ⟨h.aq, h.eq, h.ipc, h.kind⟩) _
     · exact frame_returned (by exact ⟨h.aq, h.eq, h.ipc, h.kind⟩) _
   · exact frame_returned h _
+  · exact frame_bodyStep h
 
 theorem frame_body {s0 s : S} (h : Same s0 s) (c : Fid) : SchedFrame s0 (body s c) :=
   frame_bodyOf (by exact ⟨h.aq, h.eq, h.ipc, h.kind⟩) c
@@ -456,6 +465,8 @@ theorem frame_afterDrain {s0 s : S} (h : Same s0 s) (c : Cont) : SchedFrame s0 (
       · exact frame_afterUpdate (by exact ⟨h.aq, h.eq, h.ipc, h.kind⟩)
       · exact frame_afterUpdate h
   | pass2 c => exact frame_afterUpdate (by exact ⟨h.aq, h.eq, h.ipc, h.kind⟩)
+  | brun g => exact frame_bodyStep (by exact ⟨h.aq, h.eq, h.ipc, h.kind⟩)
+  | bkill g => exact frame_bodyStep (by exact ⟨h.aq, h.eq, h.ipc, h.kind⟩)
 
 /-- the scheduler's plain code preserves `Inv1` when the main context holds no slot -/
 theorem inv1_sched {s s' : S} (h : Inv1 s) (hf : SchedFrame s s') (ha : s.aq.recv = .idle) (he : s.eq.recv = .idle) : Inv1 s' :=
@@ -575,6 +586,7 @@ theorem reach_inv1 {s : S} (hr : Reach s) : Inv1 s := by
   | nops k _ ih => exact inv1_same ih _ rfl rfl rfl rfl rfl
   | newItem _ ih => exact inv1_same ih _ rfl rfl rfl rfl rfl
   | noYields _ ih => exact inv1_same ih _ rfl rfl rfl rfl rfl
+  | setBody b r _ ih => exact inv1_same ih _ rfl rfl rfl rfl rfl
   | observe o _ _ ih => exact inv1_same ih _ rfl rfl rfl rfl rfl
 
 end Librfn.Isr.L
